@@ -366,7 +366,7 @@ func cmdCheck(args []string) int {
 		"seed":        seed,
 		"level":       level,
 		"coverage":    cov,
-		"assumptions": append(baseAssumptions(), pd.Assume...),
+		"assumptions": append(append(baseAssumptions(), pd.Assume...), rootPreconditions(db, seenRoot)...),
 		"wall_s":      round2(time.Since(t0).Seconds()),
 		"violations":  len(violations),
 	}
@@ -505,4 +505,30 @@ func recheckExcept(res *UnitResult, o *Obligation, k KnownFinding, timeout time.
 		return true, ""
 	}
 	return false, "obligation also fails outside the recorded input class (" + r.Verdict + ")"
+}
+
+// rootPreconditions lists the written preconditions of every unit of the check: they are assumed when the unit is
+// verified; call sites inside verified units check them (obligations "pre:"), call sites in code that is not under
+// contract (goroutine bodies, handlers dispatched through interfaces, users of the library) do not.
+func rootPreconditions(db *ContractDB, roots map[string]bool) []string {
+	var keys []string
+	for k := range roots {
+		keys = append(keys, k)
+	}
+	sort.Strings(keys)
+	var out []string
+	for _, k := range keys {
+		ct := db.forFunc(strings.TrimSuffix(k, "!safety"))
+		if ct == nil {
+			continue
+		}
+		for _, c := range ct.Requires {
+			kind := "precondition"
+			if c.Kind == "domain" {
+				kind = "functional domain (not required of callers)"
+			}
+			out = append(out, fmt.Sprintf("%s of %s assumed in its unit, checked only at call sites inside verified units: %s: %s", kind, k, c.Label, c.Src))
+		}
+	}
+	return out
 }
